@@ -15,6 +15,9 @@ rule tree the grammar builds (`Spec.parseBlock`).  The valuation of the matchers
 the environment (regex engine, clock, commands, file system) makes it.
 `Spec.evalBlockA` / `Spec.parseBlockA` (`Spec/RulesAtt.lean`) are the same with `attachment c`
 conditions and `attachment { ... }` action blocks, over the parts of the message.
+`Spec.parseBlockW` / `Spec.parseBlockAW` read the same trees with `pass` / `break` at ANY position of an
+action list (what the grammar accepts); the theorems over them (`..._wide`) are the general ones, the
+theorems over `parseBlock` / `parseBlockA` (control action last) their special cases.
 -/
 
 namespace Mdsort.Props
@@ -26,10 +29,13 @@ evaluation is not decided by a pass or action pending from an enclosing block
 documented result and, on a match, the documented actions: the same actions other than
 move/flag in the same order, and the same last move-or-flag.
 
-This is the special case "no attachment node in the tree" of `C03_eval_refines_spec_att` below and is
-derived from it (`Proofs/EvalAttBridge.lean`: on such a tree `Spec.parseBlockA` / `Spec.evalBlockA`
-are `Spec.parseBlock` / `Spec.evalBlock` with every action tagged with part 0, `leaks` is never
-recorded and `InDomain` implies `InDomainA`); the direct proof `Proofs.eval_refines_spec` is kept. -/
+This is the special case "no attachment node in the tree, `pass` / `break` last in their action list
+(`Spec.parseBlock`)" of `C03_eval_refines_spec_att_wide` below and is derived from it
+(`Proofs/EvalAttBridge.lean`: on a tree without attachment nodes `Spec.parseBlockAW` / `Spec.evalBlockA` are
+`Spec.parseBlockW` / `Spec.evalBlock` with every action tagged with part 0, `leaks` is never recorded and
+`InDomain` implies `InDomainA`; what `Spec.parseBlock` accepts `Spec.parseBlockW` accepts, with the same
+rules, and is `ctlPlaced`: `C03_ctl_last_is_special_case`); the direct proof `Proofs.eval_refines_spec`
+is kept. -/
 theorem C03_eval_refines_spec (env : Env) (root : Msg) (f : MFlags) (e : Expr) (rules : List Spec.Rule)
     (hp : Spec.parseBlock e = some rules) (hd : Proofs.InDomain env e = true)
     (hl : (Spec.evalBlock (Proofs.valuation env root f) Proofs.actionErr rules).crosses = false) :
@@ -144,7 +150,11 @@ whenever the documented evaluation records none of the two known deviations
   collected actions (they stay in the match list although the rule did not match),
 
 the evaluator returns the documented result and, on a match, the documented actions: the same
-(type, line, part) other than move/flag in the same order, and the same last move-or-flag. -/
+(type, line, part) other than move/flag in the same order, and the same last move-or-flag.
+
+`Spec.parseBlockA` only recognises trees whose `pass` / `break` are the last action of their list; this is
+the special case of `C03_eval_refines_spec_att_wide` (any placement the grammar accepts, `Spec.parseBlockAW`)
+and is derived from it (`C03_ctl_last_is_special_case`). -/
 theorem C03_eval_refines_spec_att (env : Env) (root : Msg) (f : MFlags) (e : Expr) (rules : List Spec.RuleA)
     (hp : Spec.parseBlockA e = some rules) (hd : Proofs.InDomainA env e = true)
     (hc : (Spec.evalBlockA (Proofs.partCtx env root f) Proofs.actionErr root rules).crosses = false)
@@ -364,6 +374,414 @@ theorem C03_att_leaks_needed :
       Spec.parseActA, Spec.isCond, Spec.isCtlExpr, Spec.isActionExpr]
   · simp [exRulesLeak, Spec.evalBlockA, Spec.evalRulesA, Spec.evalActsA, Spec.forParts, Spec.condValA,
       Spec.partIndex, exA_parts_root, exA_v_all, exA_v_body, Proofs.actionErr, PATH_MAX]
+
+/-! ## `pass` / `break` anywhere in an action list
+
+The grammar (`expractions` in parse.y) accepts `pass` and `break` at any position of an action list and
+any number of times; `expr_validate` only rejects `discard` / `reject` next to another action.
+mdsort.conf(5) lists both among the actions of a rule and states their meaning for the rule (`pass`:
+"Continue evaluation of the current block of rules up to the next matching rule"; `break`: "Abort
+evaluation of the current block of rules"), not for a position.  `Spec.parseBlockAW` reads a rule
+`match c x1 ... xn` accordingly: its actions are ALL the `xi` other than `pass` / `break`, in the order
+listed; it continues iff some `xi` is `pass`, leaves the block iff some `xi` is `break`; a list with both
+has no documented meaning (`none`).
+
+What the evaluator does (`expr_eval_and` walks the list left to right): `expr_eval_break` appends its
+marker and returns MATCH, so everything after a `break` is still collected; `expr_eval_pass` appends
+its marker and returns NO MATCH, which ends the walk: nothing after a `pass` is looked at.  The domain
+`InDomainAW` therefore is `InDomainA` (which no longer relies on the shape function to keep `pass` /
+`break` last) plus `ctlPlaced`: no action list of the tree is in one of three explicitly named classes -
+
+* `Proofs.actionAfterPass`: something other than `pass` stands after a `pass` (silently ignored by the
+  evaluator, accepted by `mdsort -n`: `C03_actions_after_pass_ignored`);
+* `Proofs.attAfterBreak`: an attachment block stands after a `break` (`expr_eval_block`, evaluating the
+  attachment block's rules on the first part, finds and removes the BREAK entry of the enclosing rule - the
+  finding F11 in one more shape: `C03_att_after_break_consumes_break`);
+* `Proofs.ctlMixed`: `pass` and `break` in one list (outside the specification).
+
+Everything else the parser accepts is covered: `break` anywhere and repeated (`break label "x"`, `label
+"x" break move "d" break`), attachment blocks before a `break`, `pass` repeated at the end. -/
+
+/-- **The refinement theorem on the widened domain.**  For every environment, message and rule tree
+that the grammar builds (`Spec.parseBlockAW`: `pass` / `break` anywhere in the action lists) and that is in
+`InDomainAW`, whenever the documented evaluation records none of the two known deviations (`crosses` =
+F11, `leaks` = F24): the evaluator returns the documented result and, on a match, the documented
+actions - the same (type, line, part) other than move/flag in the same order, and the same last
+move-or-flag. -/
+theorem C03_eval_refines_spec_att_wide (env : Env) (root : Msg) (f : MFlags) (e : Expr) (rules : List Spec.RuleA)
+    (hp : Spec.parseBlockAW e = some rules) (hd : Proofs.InDomainAW env e = true)
+    (hc : (Spec.evalBlockA (Proofs.partCtx env root f) Proofs.actionErr root rules).crosses = false)
+    (hl : (Spec.evalBlockA (Proofs.partCtx env root f) Proofs.actionErr root rules).leaks = false) :
+    let o := Spec.evalBlockA (Proofs.partCtx env root f) Proofs.actionErr root rules
+    let r := eval env root e 0 root { ml := [], flags := f }
+    r.1 = o.res ∧
+      (o.res = .match → Spec.planP (Proofs.mlKeysP r.2.ml) = Spec.planP (o.actions.filterMap Spec.actKeyP)) :=
+  Proofs.att_eval_refines_spec_wide env root f e rules hp hd hc hl
+
+/-- The same for trees without attachment nodes, over `Spec/Rules.lean` (`Spec.parseBlockW`, domain
+`InDomainW` = `InDomain` and `ctlPlaced`); derived from the theorem above. -/
+theorem C03_eval_refines_spec_wide (env : Env) (root : Msg) (f : MFlags) (e : Expr) (rules : List Spec.Rule)
+    (hp : Spec.parseBlockW e = some rules) (hd : Proofs.InDomainW env e = true)
+    (hl : (Spec.evalBlock (Proofs.valuation env root f) Proofs.actionErr rules).crosses = false) :
+    let o := Spec.evalBlock (Proofs.valuation env root f) Proofs.actionErr rules
+    let r := eval env root e 0 root { ml := [], flags := f }
+    r.1 = o.res ∧ (o.res = .match → Spec.planOf (Proofs.mlKeys r.2.ml) = Spec.planOf (o.actions.filterMap Spec.actKey)) :=
+  Proofs.att_eval_refines_spec_old_wide env root f e rules hp hd hl
+
+/-- The theorems with the control action last are special cases: what `Spec.parseBlockA` /
+`Spec.parseBlock` accept, `Spec.parseBlockAW` / `Spec.parseBlockW` accept with the same rules, and such a
+tree is `ctlPlaced` (so `InDomainA` / `InDomain` give `InDomainAW` / `InDomainW`). -/
+theorem C03_ctl_last_is_special_case (env : Env) (e : Expr) :
+    (∀ rules, Spec.parseBlockA e = some rules → Spec.parseBlockAW e = some rules ∧
+      (Proofs.InDomainA env e = true → Proofs.InDomainAW env e = true)) ∧
+    (∀ rules, Spec.parseBlock e = some rules → Spec.parseBlockW e = some rules ∧
+      (Proofs.InDomain env e = true → Proofs.InDomainW env e = true)) := by
+  refine ⟨fun rules h => ?_, fun rules h => ?_⟩
+  · obtain ⟨h1, h2⟩ := Proofs.att_parseBlockAW_of_parseBlockA h
+    exact ⟨h1, fun hd => by simp [Proofs.InDomainAW, hd, h2]⟩
+  · obtain ⟨h1, h2⟩ := Proofs.parseBlockW_of_parseBlock h
+    exact ⟨h1, fun hd => by simp [Proofs.InDomainW, hd, h2]⟩
+
+/-! ### Non-vacuity: `break` first, an action behind it, `break` again; `pass` twice
+
+The shape of `tests/action-break.sh` "label, pass, label, break and move" with the control actions
+moved around (and the nested block first: an attachment block evaluated while a `pass` is pending is the
+recorded deviation `crosses`), on the two-part message; `/2/` matches the second part only.
+
+```
+match all {
+    match all attachment { match body /2/ exec "c" } break label "two" break
+}
+match all label "one" pass pass
+match all move "/d"
+```
+In the nested block the attachment block matches (second part), `break` leaves the block with the exec
+and the label pending; the second rule collects its label and continues; the third rule matches. -/
+
+def exTreeW : Expr :=
+  .block 1 (.or 1 (.or 1
+    (.mtch 2 (.all 2) (.block 2
+      (.mtch 3 (.all 3) (.and 3 (.and 3 (.and 3
+        (.attBlock 3 (.block 3 (.mtch 4 (.body 4 { src := [50] }) (.exec 4 false false [[99]]))))
+        (.brk 3)) (.label 3 [[116]])) (.brk 3)))))
+    (.mtch 5 (.all 5) (.and 5 (.and 5 (.label 5 [[111]]) (.pass 5)) (.pass 5))))
+    (.mtch 6 (.all 6) (.move 6 [47, 100])))
+
+def exRulesW : List Spec.RuleA :=
+  [.blk 2 (.all 2)
+     [.acts 3 (.all 3)
+        [.att 3 [.acts 4 (.body 4 { src := [50] }) [.plain (.exec 4 false false [[99]])] .none],
+         .plain (.label 3 [[116]])] .brk],
+   .acts 5 (.all 5) [.plain (.label 5 [[111]])] .pass,
+   .acts 6 (.all 6) [.plain (.move 6 [47, 100])] .none]
+
+theorem exW_parse : Spec.parseBlockAW exTreeW = some exRulesW := by
+  simp [exTreeW, exRulesW, Spec.parseBlockAW, Spec.parseRulesAW, Spec.parseRuleAW, Spec.parseChainAW, Spec.parseActAW,
+    Spec.ctlOfList, Spec.andChain, Spec.isPassExpr, Spec.isBrkExpr, Spec.isCond, Spec.isCtlExpr, Spec.isActionExpr]
+
+/-- Outside the old shape: the control action is not last. -/
+theorem exW_not_ctl_last : Spec.parseBlockA exTreeW = none := by
+  simp [exTreeW, Spec.parseBlockA, Spec.parseRulesA, Spec.parseRuleA, Spec.parseChainA, Spec.parseActA,
+    Spec.isCond, Spec.isCtlExpr, Spec.isActionExpr]
+
+theorem exW_inDomain : Proofs.InDomainAW exEnvA exTreeW = true := by decide +kernel
+
+theorem exA_v_body4 :
+    exCtxA.v 1 exP1 (.body 4 { src := [50] }) = .nomatch ∧ exCtxA.v 2 exP2 (.body 4 { src := [50] }) = .match := by
+  simp only [exCtxA, Proofs.partCtx, eval]
+  decide +kernel
+
+theorem exW_outcome : Spec.evalBlockA exCtxA Proofs.actionErr exMsgA exRulesW =
+    { res := .match,
+      actions := [(2, .exec 4 false false [[99]]), (0, .label 3 [[116]]), (0, .label 5 [[111]]), (0, .move 6 [47, 100])],
+      crosses := false, leaks := false } := by
+  simp [exRulesW, Spec.evalBlockA, Spec.evalRulesA, Spec.evalActsA, Spec.forParts, Spec.condValA,
+    Spec.partIndex, exA_parts_root, exA_v_all, exA_v_body4, Proofs.actionErr, PATH_MAX]
+
+/-- The hypotheses of `C03_eval_refines_spec_att_wide` are satisfiable on a tree that is NOT in the old
+shape, and the theorem pins the evaluator's result and plan. -/
+theorem C03_wide_nonvacuous :
+    Spec.parseBlockAW exTreeW = some exRulesW ∧ Spec.parseBlockA exTreeW = none ∧
+    Proofs.InDomainAW exEnvA exTreeW = true ∧
+    (Spec.evalBlockA exCtxA Proofs.actionErr exMsgA exRulesW).crosses = false ∧
+    (Spec.evalBlockA exCtxA Proofs.actionErr exMsgA exRulesW).leaks = false ∧
+    (eval exEnvA exMsgA exTreeW 0 exMsgA { ml := [], flags := MFlags.empty }).1 = .match ∧
+    Spec.planP (Proofs.mlKeysP (eval exEnvA exMsgA exTreeW 0 exMsgA { ml := [], flags := MFlags.empty }).2.ml) =
+      ([(.exec, 4, 2), (.label, 3, 0), (.label, 5, 0)], some (.move, 6, 0)) := by
+  have hc : (Spec.evalBlockA exCtxA Proofs.actionErr exMsgA exRulesW).crosses = false := by rw [exW_outcome]
+  have hl : (Spec.evalBlockA exCtxA Proofs.actionErr exMsgA exRulesW).leaks = false := by rw [exW_outcome]
+  have h := C03_eval_refines_spec_att_wide exEnvA exMsgA MFlags.empty exTreeW exRulesW exW_parse exW_inDomain hc hl
+  simp only [exW_outcome] at h
+  refine ⟨exW_parse, exW_not_ctl_last, exW_inDomain, hc, hl, h.1, ?_⟩
+  rw [h.2 trivial]
+  decide
+
+/-- The same tree evaluated directly (no theorem involved): the BREAK entries are gone, the label behind
+the first `break` is in the list. -/
+example :
+    Proofs.mlKeysP (eval exEnvA exMsgA exTreeW 0 exMsgA { ml := [], flags := MFlags.empty }).2.ml =
+      [(.exec, 4, 2), (.label, 3, 0), (.label, 5, 0), (.move, 6, 0)] := by
+  simp only [exTreeW, eval, exA_parts, eval.loopB]
+  decide +kernel
+
+/-- Without attachment nodes (`C03_eval_refines_spec_wide`): `match all break label "x" break` in a nested
+block, then a rule that matches; `tests/action-break.sh` "move, break and move" with the `break` first. -/
+def exTreeW0 : Expr :=
+  .block 1 (.or 1
+    (.mtch 2 (.all 2) (.block 2 (.mtch 3 (.new 3) (.and 3 (.and 3 (.brk 3) (.move 3 [47, 97])) (.brk 3)))))
+    (.mtch 4 (.all 4) (.move 4 [47, 98])))
+
+def exRulesW0 : List Spec.Rule :=
+  [.blk 2 (.all 2) [.acts 3 (.new 3) [.move 3 [47, 97]] .brk], .acts 4 (.all 4) [.move 4 [47, 98]] .none]
+
+theorem C03_wide_nonvacuous_plain :
+    Spec.parseBlockW exTreeW0 = some exRulesW0 ∧ Spec.parseBlock exTreeW0 = none ∧
+    Proofs.InDomainW exEnv exTreeW0 = true ∧
+    Spec.evalBlock exVal Proofs.actionErr exRulesW0 =
+      { res := .match, actions := [.move 3 [47, 97], .move 4 [47, 98]], crosses := false } ∧
+    (eval exEnv exMsg exTreeW0 0 exMsg { ml := [], flags := MFlags.empty }).1 = .match ∧
+    Spec.planOf (Proofs.mlKeys (eval exEnv exMsg exTreeW0 0 exMsg { ml := [], flags := MFlags.empty }).2.ml) =
+      ([], some (.move, 4)) := by
+  have hp : Spec.parseBlockW exTreeW0 = some exRulesW0 := by
+    simp [exTreeW0, exRulesW0, Spec.parseBlockW, Spec.parseRulesW, Spec.parseRuleW, Spec.splitActsW, Spec.ctlOfList,
+      Spec.andChain, Spec.isPassExpr, Spec.isBrkExpr, Spec.isCond, Spec.isCtlExpr, Spec.isActionExpr]
+  have hno : Spec.parseBlock exTreeW0 = none := by
+    simp [exTreeW0, Spec.parseBlock, Spec.parseRules, Spec.parseRule, Spec.splitActs, Spec.andChain, Spec.isCond,
+      Spec.isCtlExpr, Spec.isActionExpr]
+  have hd : Proofs.InDomainW exEnv exTreeW0 = true := by decide +kernel
+  have ho : Spec.evalBlock exVal Proofs.actionErr exRulesW0 =
+      { res := .match, actions := [.move 3 [47, 97], .move 4 [47, 98]], crosses := false } := by
+    simp [exRulesW0, Spec.evalBlock, Spec.evalRules, Spec.condVal, ex_v_all, ex_v_new, Proofs.actionErr, PATH_MAX]
+  have hc : (Spec.evalBlock exVal Proofs.actionErr exRulesW0).crosses = false := by rw [ho]
+  have h := C03_eval_refines_spec_wide exEnv exMsg MFlags.empty exTreeW0 exRulesW0 hp hd hc
+  simp only [ho] at h
+  refine ⟨hp, hno, hd, ho, h.1, ?_⟩
+  rw [h.2 trivial]
+  decide
+
+/-! `tests/action-break.sh` "label, pass, label, break and move", with the `break` first and the `pass` doubled. -/
+def exTreeLPLBM : Expr :=
+  .block 1 (.or 1 (.or 1
+    (.mtch 2 (.all 2) (.and 2 (.and 2 (.label 2 [[111]]) (.pass 2)) (.pass 2)))
+    (.mtch 3 (.all 3) (.block 3 (.mtch 4 (.all 4) (.and 4 (.brk 4) (.label 4 [[116]]))))))
+    (.mtch 5 (.all 5) (.move 5 [47, 100])))
+
+def exRulesLPLBM : List Spec.Rule :=
+  [.acts 2 (.all 2) [.label 2 [[111]]] .pass,
+   .blk 3 (.all 3) [.acts 4 (.all 4) [.label 4 [[116]]] .brk],
+   .acts 5 (.all 5) [.move 5 [47, 100]] .none]
+
+theorem C03_wide_label_pass_label_break_move :
+    Spec.parseBlockW exTreeLPLBM = some exRulesLPLBM ∧ Spec.parseBlock exTreeLPLBM = none ∧
+    Proofs.InDomainW exEnv exTreeLPLBM = true ∧
+    Spec.evalBlock exVal Proofs.actionErr exRulesLPLBM =
+      { res := .match, actions := [.label 2 [[111]], .label 4 [[116]], .move 5 [47, 100]], crosses := false } ∧
+    (eval exEnv exMsg exTreeLPLBM 0 exMsg { ml := [], flags := MFlags.empty }).1 = .match ∧
+    Spec.planOf (Proofs.mlKeys (eval exEnv exMsg exTreeLPLBM 0 exMsg { ml := [], flags := MFlags.empty }).2.ml) =
+      ([(.label, 2), (.label, 4)], some (.move, 5)) := by
+  have hp : Spec.parseBlockW exTreeLPLBM = some exRulesLPLBM := by
+    simp [exTreeLPLBM, exRulesLPLBM, Spec.parseBlockW, Spec.parseRulesW, Spec.parseRuleW, Spec.splitActsW, Spec.ctlOfList,
+      Spec.andChain, Spec.isPassExpr, Spec.isBrkExpr, Spec.isCond, Spec.isCtlExpr, Spec.isActionExpr]
+  have hno : Spec.parseBlock exTreeLPLBM = none := by
+    simp [exTreeLPLBM, Spec.parseBlock, Spec.parseRules, Spec.parseRule, Spec.splitActs, Spec.andChain, Spec.isCond,
+      Spec.isCtlExpr, Spec.isActionExpr]
+  have hd : Proofs.InDomainW exEnv exTreeLPLBM = true := by decide +kernel
+  have ho : Spec.evalBlock exVal Proofs.actionErr exRulesLPLBM =
+      { res := .match, actions := [.label 2 [[111]], .label 4 [[116]], .move 5 [47, 100]], crosses := false } := by
+    simp [exRulesLPLBM, Spec.evalBlock, Spec.evalRules, Spec.condVal, ex_v_all, Proofs.actionErr, PATH_MAX]
+  have hc : (Spec.evalBlock exVal Proofs.actionErr exRulesLPLBM).crosses = false := by rw [ho]
+  have h := C03_eval_refines_spec_wide exEnv exMsg MFlags.empty exTreeLPLBM exRulesLPLBM hp hd hc
+  simp only [ho] at h
+  refine ⟨hp, hno, hd, ho, h.1, ?_⟩
+  rw [h.2 trivial]
+  decide
+
+/-! The README configuration (first block).  `h "x"` = `ofString "x"`. -/
+def rdEnv : Env := { exEnvA with path := ofString "/m/cur/1:2,S" }
+
+def rdTree (withIsdir : Bool) : Expr :=
+  let r1 : Expr := .mtch 3 (.and 3 (.header 3 [ofString "From"] { src := ofString "notifications@github.com" })
+      (.header 4 [ofString "Subject"] { src := ofString "mdsort" })) (.move 4 (ofString "/h/Maildir/mdsort"))
+  let r2 : Expr := .mtch 7 (.header 7 [ofString "Cc", ofString "To"] { src := ofString "(bugs|misc|ports|tech)@openbsd.org", icase := true })
+      (.move 8 (ofString "/h/Maildir/openbsd-\\1"))
+  let r3 : Expr := .mtch 11 (.header 11 [ofString "To"] { src := ofString "user\\+(.+)@example.com", lcase := true })
+      (.label 11 [ofString "\\1"])
+  let r4 : Expr := .mtch 15 (.and 15 (.header 15 [ofString "To"] { src := ofString "user\\+(.+)@example.com", lcase := true })
+      (.stat 16 (ofString "/h/Maildir/\\1"))) (.move 16 (ofString "/h/Maildir/\\1"))
+  let r5 : Expr := .mtch 19 (.all 19) (.attBlock 19 (.block 19
+      (.mtch 20 (.header 20 [ofString "Content-Type"] { src := ofString "text/calendar" })
+        (.exec 21 true true [ofString "icalendar2calendar"]))))
+  let r6 : Expr := .mtch 25 (.neg 25 (.new 25)) (.move 25 (ofString "/h/Maildir/Archive"))
+  if withIsdir then .block 2 (.or 2 (.or 2 (.or 2 (.or 2 (.or 2 r1 r2) r3) r4) r5) r6)
+  else .block 2 (.or 2 (.or 2 (.or 2 (.or 2 r1 r2) r3) r5) r6)
+
+def rdRules : List Spec.RuleA :=
+  [.acts 3 (.and 3 (.header 3 [ofString "From"] { src := ofString "notifications@github.com" })
+      (.header 4 [ofString "Subject"] { src := ofString "mdsort" })) [.plain (.move 4 (ofString "/h/Maildir/mdsort"))] .none,
+   .acts 7 (.header 7 [ofString "Cc", ofString "To"] { src := ofString "(bugs|misc|ports|tech)@openbsd.org", icase := true })
+      [.plain (.move 8 (ofString "/h/Maildir/openbsd-\\1"))] .none,
+   .acts 11 (.header 11 [ofString "To"] { src := ofString "user\\+(.+)@example.com", lcase := true })
+      [.plain (.label 11 [ofString "\\1"])] .none,
+   .acts 19 (.all 19) [.att 19
+      [.acts 20 (.header 20 [ofString "Content-Type"] { src := ofString "text/calendar" })
+        [.plain (.exec 21 true true [ofString "icalendar2calendar"])] .none]] .none,
+   .acts 25 (.neg 25 (.new 25)) [.plain (.move 25 (ofString "/h/Maildir/Archive"))] .none]
+
+abbrev rdCtx := Proofs.partCtx rdEnv exMsgA MFlags.empty
+
+theorem rd_v :
+    rdCtx.v 0 exMsgA (.header 3 [ofString "From"] { src := ofString "notifications@github.com" }) = .nomatch ∧
+    rdCtx.v 0 exMsgA (.header 7 [ofString "Cc", ofString "To"] { src := ofString "(bugs|misc|ports|tech)@openbsd.org", icase := true }) = .nomatch ∧
+    rdCtx.v 0 exMsgA (.header 11 [ofString "To"] { src := ofString "user\\+(.+)@example.com", lcase := true }) = .nomatch ∧
+    rdCtx.v 1 exP1 (.header 20 [ofString "Content-Type"] { src := ofString "text/calendar" }) = .nomatch ∧
+    rdCtx.v 2 exP2 (.header 20 [ofString "Content-Type"] { src := ofString "text/calendar" }) = .nomatch ∧
+    rdCtx.v 0 exMsgA (.new 25) = .nomatch ∧ (∀ l, rdCtx.v 0 exMsgA (.all l) = .match) := by
+  simp only [rdCtx, Proofs.partCtx, eval]
+  refine ⟨by decide +kernel, by decide +kernel, by decide +kernel, by decide +kernel, by decide +kernel, by decide +kernel,
+    fun _ => trivial⟩
+
+/-- The README configuration (first block, `~` = `/h`) without its rule `match header "To" /user\\+(.+)@example.com/l
+and isdirectory "~/Maildir/\\1" move "~/Maildir/\\1"` is inside the domain (with that rule it is not: the string of
+the `isdirectory` condition holds a back-reference, `wfTreeA`); on the two-part message, read and in `cur`, no
+header rule and no attachment matches, the last rule archives it. -/
+theorem C03_readme_nonvacuous :
+    Spec.parseBlockAW (rdTree false) = some rdRules ∧ Proofs.InDomainAW rdEnv (rdTree false) = true ∧
+    Proofs.InDomainA rdEnv (rdTree true) = false ∧
+    (Spec.evalBlockA rdCtx Proofs.actionErr exMsgA rdRules).res = .match ∧
+    (Spec.evalBlockA rdCtx Proofs.actionErr exMsgA rdRules).crosses = false ∧
+    (Spec.evalBlockA rdCtx Proofs.actionErr exMsgA rdRules).leaks = false ∧
+    (eval rdEnv exMsgA (rdTree false) 0 exMsgA { ml := [], flags := MFlags.empty }).1 = .match ∧
+    Spec.planP (Proofs.mlKeysP (eval rdEnv exMsgA (rdTree false) 0 exMsgA { ml := [], flags := MFlags.empty }).2.ml) =
+      ([], some (.move, 25, 0)) := by
+  have hp : Spec.parseBlockAW (rdTree false) = some rdRules := by
+    simp [rdTree, rdRules, Spec.parseBlockAW, Spec.parseRulesAW, Spec.parseRuleAW, Spec.parseChainAW, Spec.parseActAW,
+      Spec.ctlOfList, Spec.andChain, Spec.isPassExpr, Spec.isBrkExpr, Spec.isCond, Spec.isCtlExpr, Spec.isActionExpr]
+  have hd : Proofs.InDomainAW rdEnv (rdTree false) = true := by decide +kernel
+  have hparts : rdCtx.parts exMsgA = some [exP1, exP2] := exA_parts
+  have ho : Spec.evalBlockA rdCtx Proofs.actionErr exMsgA rdRules =
+      { res := .match, actions := [(0, .move 25 (ofString "/h/Maildir/Archive"))], crosses := false, leaks := false } := by
+    have hlen : ¬ 4096 ≤ List.length (ofString "/h/Maildir/Archive") := by decide +kernel
+    simp [rdRules, Spec.evalBlockA, Spec.evalRulesA, Spec.evalActsA, Spec.forParts, Spec.condValA, Spec.partIndex,
+      hparts, rd_v, Proofs.actionErr, PATH_MAX, hlen]
+  have hc : (Spec.evalBlockA rdCtx Proofs.actionErr exMsgA rdRules).crosses = false := by rw [ho]
+  have hl : (Spec.evalBlockA rdCtx Proofs.actionErr exMsgA rdRules).leaks = false := by rw [ho]
+  have h := C03_eval_refines_spec_att_wide rdEnv exMsgA MFlags.empty (rdTree false) rdRules hp hd hc hl
+  simp only [ho] at h
+  refine ⟨hp, hd, by decide +kernel, by rw [ho], hc, hl, h.1, ?_⟩
+  rw [h.2 trivial]
+  decide
+
+/-! ### The three classes outside `ctlPlaced` are real
+
+(1) `actionAfterPass`.  `match all label "x" pass move "/y"`: documented = the rule's actions are the label
+and the move, and evaluation continues; the evaluator stops walking the action list at `pass`: the move
+is never evaluated.  Real binary (mdsort 11.5.1 with the repairs of 9.2): exit 0, the message stays in
+its maildir with `X-Label: x`; `mdsort -n` accepts the file without a word. -/
+
+def exTreeAfterPass : Expr :=
+  .block 1 (.mtch 2 (.all 2) (.and 2 (.and 2 (.label 2 [[120]]) (.pass 2)) (.move 2 [47, 121])))
+
+def exRulesAfterPass : List Spec.RuleA :=
+  [.acts 2 (.all 2) [.plain (.label 2 [[120]]), .plain (.move 2 [47, 121])] .pass]
+
+/-- An action after `pass` in the same list is silently ignored: the tree is what the grammar builds
+and in `InDomainA`, its only defect is `actionAfterPass`; documented = match with label and move,
+evaluator = match with the label only. -/
+theorem C03_actions_after_pass_ignored :
+    Spec.parseBlockAW exTreeAfterPass = some exRulesAfterPass ∧ Proofs.InDomainA exEnvA exTreeAfterPass = true ∧
+    Proofs.actionAfterPass [.label 2 [[120]], .pass 2, .move 2 [47, 121]] = true ∧
+    Proofs.ctlPlaced exTreeAfterPass = false ∧
+    Spec.evalBlockA exCtxA Proofs.actionErr exMsgA exRulesAfterPass =
+      { res := .match, actions := [(0, .label 2 [[120]]), (0, .move 2 [47, 121])], crosses := false, leaks := false } ∧
+    (eval exEnvA exMsgA exTreeAfterPass 0 exMsgA { ml := [], flags := MFlags.empty }).1 = .match ∧
+    Proofs.mlKeysP (eval exEnvA exMsgA exTreeAfterPass 0 exMsgA { ml := [], flags := MFlags.empty }).2.ml =
+      [(.label, 2, 0)] := by
+  refine ⟨?_, by decide +kernel, by decide +kernel, by decide +kernel, ?_, ?_, ?_⟩
+  · simp [exTreeAfterPass, exRulesAfterPass, Spec.parseBlockAW, Spec.parseRulesAW, Spec.parseRuleAW, Spec.parseChainAW,
+      Spec.parseActAW, Spec.ctlOfList, Spec.andChain, Spec.isPassExpr, Spec.isBrkExpr, Spec.isCond, Spec.isCtlExpr,
+      Spec.isActionExpr]
+  · simp [exRulesAfterPass, Spec.evalBlockA, Spec.evalRulesA, Spec.evalActsA, Spec.condValA, exA_v_all,
+      Proofs.actionErr, PATH_MAX]
+  · simp only [exTreeAfterPass, eval]; decide +kernel
+  · simp only [exTreeAfterPass, eval]; decide +kernel
+
+/-- Hence the statement of `C03_eval_refines_spec_att_wide` without `ctlPlaced` (domain `InDomainA` only)
+is false. -/
+theorem C03_eval_refines_spec_att_wide_unrestricted_false :
+    ¬ (∀ (env : Env) (root : Msg) (f : MFlags) (e : Expr) (rules : List Spec.RuleA),
+      Spec.parseBlockAW e = some rules → Proofs.InDomainA env e = true →
+      (Spec.evalBlockA (Proofs.partCtx env root f) Proofs.actionErr root rules).crosses = false →
+      (Spec.evalBlockA (Proofs.partCtx env root f) Proofs.actionErr root rules).leaks = false →
+      (Spec.evalBlockA (Proofs.partCtx env root f) Proofs.actionErr root rules).res = .match →
+      Spec.planP (Proofs.mlKeysP (eval env root e 0 root { ml := [], flags := f }).2.ml) =
+        Spec.planP ((Spec.evalBlockA (Proofs.partCtx env root f) Proofs.actionErr root rules).actions.filterMap
+          Spec.actKeyP)) := by
+  intro h
+  obtain ⟨hp, hd, _, _, ho, _, hk⟩ := C03_actions_after_pass_ignored
+  have := h exEnvA exMsgA MFlags.empty exTreeAfterPass exRulesAfterPass hp hd (by rw [ho]) (by rw [ho]) (by rw [ho])
+  rw [hk, ho] at this
+  revert this
+  decide
+
+/-! (2) `attAfterBreak`.  `match all break attachment { match body /2/ exec "c" }` then `match all move
+"/d"` on the two-part message: documented = the attachment block matches (second part), the rule
+leaves the root block: no match, nothing is done.  The evaluator: on the first part `expr_eval_block`
+finds the BREAK entry of the enclosing rule, removes it and reports no match for the part; the second
+part matches, the rule matches, nothing is left of the `break`: the command runs.  (With a block that
+matches on no part the rule "does not match", the next rule files the message and the exec of the
+abandoned rule - if any was collected - runs too: replayed on the real binary with `body /alpha/`,
+exit 0, command executed, message moved.) -/
+
+def exTreeAttAfterBrk : Expr :=
+  .block 1 (.or 1
+    (.mtch 2 (.all 2) (.and 2 (.brk 2)
+      (.attBlock 2 (.block 2 (.mtch 3 (.body 3 { src := [50] }) (.exec 3 false false [[99]]))))))
+    (.mtch 4 (.all 4) (.move 4 [47, 100])))
+
+def exRulesAttAfterBrk : List Spec.RuleA :=
+  [.acts 2 (.all 2) [.att 2 [.acts 3 (.body 3 { src := [50] }) [.plain (.exec 3 false false [[99]])] .none]] .brk,
+   .acts 4 (.all 4) [.plain (.move 4 [47, 100])] .none]
+
+theorem C03_att_after_break_consumes_break :
+    Spec.parseBlockAW exTreeAttAfterBrk = some exRulesAttAfterBrk ∧ Proofs.InDomainA exEnvA exTreeAttAfterBrk = true ∧
+    Proofs.attAfterBreak [.brk 2, .attBlock 2 (.block 2 (.mtch 3 (.body 3 { src := [50] }) (.exec 3 false false [[99]])))]
+      = true ∧
+    Proofs.ctlPlaced exTreeAttAfterBrk = false ∧
+    Spec.evalBlockA exCtxA Proofs.actionErr exMsgA exRulesAttAfterBrk =
+      { res := .nomatch, actions := [], crosses := false, leaks := false } ∧
+    (eval exEnvA exMsgA exTreeAttAfterBrk 0 exMsgA { ml := [], flags := MFlags.empty }).1 = .match ∧
+    Proofs.mlKeysP (eval exEnvA exMsgA exTreeAttAfterBrk 0 exMsgA { ml := [], flags := MFlags.empty }).2.ml =
+      [(.exec, 3, 2)] := by
+  refine ⟨?_, by decide +kernel, by decide +kernel, by decide +kernel, ?_, ?_, ?_⟩
+  · simp [exTreeAttAfterBrk, exRulesAttAfterBrk, Spec.parseBlockAW, Spec.parseRulesAW, Spec.parseRuleAW,
+      Spec.parseChainAW, Spec.parseActAW, Spec.ctlOfList, Spec.andChain, Spec.isPassExpr, Spec.isBrkExpr, Spec.isCond,
+      Spec.isCtlExpr, Spec.isActionExpr]
+  · simp [exRulesAttAfterBrk, Spec.evalBlockA, Spec.evalRulesA, Spec.evalActsA, Spec.forParts, Spec.condValA,
+      Spec.partIndex, exA_parts_root, exA_v_all, exA_v_body, Proofs.actionErr]
+  · simp only [exTreeAttAfterBrk, eval, exA_parts, eval.loopB]; decide +kernel
+  · simp only [exTreeAttAfterBrk, eval, exA_parts, eval.loopB]; decide +kernel
+
+/-! (3) `ctlMixed`: no documented meaning, the shape function refuses the list.  What the evaluator does
+is recorded as an observation: with `pass` first the `break` is never looked at (the rule behaves as
+`label "x" pass`); with `break` first both markers are appended, `expr_eval_block` removes the BREAK
+entries only, and the PASS entry stays behind for the enclosing block - in a nested block the label is
+executed although the block was left by `break` and nothing else matched (replayed on the real binary:
+`match all { match all label "x" break pass }` labels the message, `... label "x" break }` does not). -/
+
+example :
+    Spec.parseBlockAW (.block 1 (.mtch 2 (.all 2) (.and 2 (.and 2 (.label 2 [[120]]) (.pass 2)) (.brk 2)))) = none ∧
+    Proofs.ctlMixed [.label 2 [[120]], .pass 2, .brk 2] = true ∧
+    (eval exEnvA exMsgA (.block 1 (.mtch 2 (.all 2) (.block 2
+        (.mtch 3 (.all 3) (.and 3 (.and 3 (.label 3 [[120]]) (.brk 3)) (.pass 3)))))) 0 exMsgA
+      { ml := [], flags := MFlags.empty }).1 = .match ∧
+    (eval exEnvA exMsgA (.block 1 (.mtch 2 (.all 2) (.block 2
+        (.mtch 3 (.all 3) (.and 3 (.label 3 [[120]]) (.brk 3)))))) 0 exMsgA
+      { ml := [], flags := MFlags.empty }).1 = .nomatch := by
+  refine ⟨?_, by decide +kernel, ?_, ?_⟩
+  · simp [Spec.parseBlockAW, Spec.parseRulesAW, Spec.parseRuleAW, Spec.parseChainAW, Spec.parseActAW, Spec.ctlOfList,
+      Spec.andChain, Spec.isPassExpr, Spec.isBrkExpr, Spec.isCond, Spec.isCtlExpr, Spec.isActionExpr]
+  · simp only [eval]; decide +kernel
+  · simp only [eval]; decide +kernel
 
 /-- `old` is inside the domain as long as no `flags` action of the tree sets `S`
 (`match old flags "T" move "/x"`). -/
